@@ -401,11 +401,14 @@ def setop_obligations(pid, tier, seed):
                                         nk=0, args=args, pre=pre, params=P, timeout=t))
         # None (the smallest object key) as the first key of either or both container operands
         conts = ['Set', 'TreeSet', 'Bucket', 'BTree']
-        for ka in conts:
-            for kb in conts:
+        for ka in conts + ['list']:
+            for kb in conts + ['list', 'iter']:
+                if ka not in conts and kb not in conts:
+                    continue
                 for na, nb in (((1, 1), (2, 2)) if tier == 'quick' else ((1, 1), (1, 2), (2, 1), (2, 2), (3, 3))):
                     args = [('a%d' % i, 'int') for i in range(na)] + [('b%d' % i, 'int') for i in range(nb)] + [('an', 'bool'), ('bn', 'bool')]
-                    pre = ([' < '.join('a%d' % i for i in range(na))] if na > 1 else []) + ([' < '.join('b%d' % i for i in range(nb))] if nb > 1 else [])
+                    pre = ([' < '.join('a%d' % i for i in range(na))] if na > 1 and ka in conts else []) + \
+                          ([' < '.join('b%d' % i for i in range(nb))] if nb > 1 and kb in conts else [])
                     obs.append(dict(id='%s/%s/%s-%s/%d%d/none' % (pid, impl, ka, kb, na, nb), mod='h_setop', fn='setop_case',
                                     nk=0, args=args, pre=pre, params=dict(impl=impl, ka=ka, kb=kb, na=na, nb=nb), timeout=t))
         # multi-leaf tree operands (3 keys at leaf size 2) against every kind, also in the quick tier
